@@ -191,7 +191,9 @@ META["C05"] = {
 }
 @prop("C05")
 def c05():
-    return text_queries((0,), 2, 3) + slot_queries("C05", ["vh_associate", "vh_insert", "vh_assoc_op", "vh_put_copy", "vh_temp_copy", "vh_append"], 3, 4)
+    return text_queries((0,), 2, 3) + slot_queries("C05", ["vh_associate", "vh_insert", "vh_assoc_op", "vh_put_copy", "vh_temp_copy", "vh_append"], 3, 4) + \
+           [Q(f"face_run_n{n}", "facerun.cpp", "vh_face_run", {"NS": n}, unwind=n + 5, unwindset={"associateChars": n + 2, "vh_face_run": n + 3},
+              stubs=["_ZNK9graphite24Silf11runGraphiteEPNS_7SegmentEhhi"], unit_flags={"Silf": ["-fno-inline"], "Face": ["-fno-inline"]}) for n in (1, 2, 3)]
 
 # ------------------------------------------------------------------------------------------- C18
 META["C18"] = {
@@ -555,6 +557,16 @@ def c10():
     for n, rg in cases:
         qs.append(Q(f"cmap_paths_seg{n}_r{rg.replace(',', '_')}", "cmap_paths.cpp", "vh_cmap_paths", {"NSEG": n, "RANGES": rg}, unwind=8, unwindset=US, cbmc_flags=["--sat-solver", "cadical"], est_gb=6,
                     cc_defs=["LL_MEM_CASES=0,44,52,60,176,512,2048,34816"]))
+    for n in (1, 2, 3):
+        qs.append(Q(f"cmap12_step_grp{n}", "cmap.cpp", "vh_cmap12_step", {"NGRP": n}, unwind=n + 3, unwindset={"vh_bytes": 64}))
+    for n, g in ((1, 0), (2, 0), (3, 0), (4, 0), (2, 1), (3, 1)):
+        qs.append(Q(f"cmap4_step_seg{n}_gid{g}", "cmap.cpp", "vh_cmap4_step", {"NSEG": n, "NGID": g}, unwind=n + 4, unwindset={"vh_bytes": 64},
+                    tiers=("quick", "thorough") if n <= 2 else ("thorough",), timeout=None if n <= 2 else 1700))
+    US12 = dict(US, **{"vh_cmap_paths12": 80, "CmapSubtable12NextCodepoint": 4, "CmapSubtable12Lookup": 4, "CheckCmapSubtable12": 4, "lid:cache_subtable": 12})
+    for ng, rg in ((1, "0x10000,0x10001"), (1, "0x1D510,0x1D512"), (2, "0x10000,0x10000,0x10001,0x10002"), (2, "0x100FE,0x10101,0x20000,0x20001")):
+        qs.append(Q(f"cmap_paths12_g{ng}_r{rg.replace(',', '_').replace('0x', '')}", "cmap_paths.cpp", "vh_cmap_paths12", {"NGRP": ng, "GRANGES": rg}, unwind=8, unwindset=dict(US12, vh_get_table=62 + 12 * ng, vh_bytes=62 + 12 * ng, vh_cmap_paths12=62 + 12 * ng),
+                    cbmc_flags=["--sat-solver", "cadical"], est_gb=14, timeout=1700, tiers=("thorough",), cc_defs=[f"LL_MEM_CASES=0,{20 + 24 + 16 + 12 * ng},512,2048,34816"],
+                    note="whole-object product for format 12: out of memory at 14 GB (0x1100 block pointers); the step lemma cmap12_step_grp* decides the clause inductively"))
     qs.append(Q("cmap_paths_seg2_symbolic", "cmap_paths.cpp", "vh_cmap_paths", {"NSEG": 2}, unwind=8, unwindset=US, tiers=("thorough",), timeout=1700,
                 cbmc_flags=["--sat-solver", "cadical"], cc_defs=["LL_MEM_CASES=0,44,52,176,512,2048,34816"]))
     return qs
